@@ -223,8 +223,13 @@ func (e *env) divide() {
 	}
 	for _, pr := range pairs {
 		n0, N := pr[0], pr[1]
-		for _, variant := range []string{"default", "shift"} {
-			D0, D1 := e.domain(n0, variant), e.domain(N, variant)
+		// the coset is the big domain's: the small domain only gives n0, whatever its own coset shift is
+		for _, vv := range [][2]string{{"default", "default"}, {"shift", "shift"}, {"default", "shift"}, {"shift", "default"}} {
+			variant := vv[1]
+			if vv[0] != vv[1] {
+				variant = "small-" + vv[0] + "/big-" + vv[1]
+			}
+			D0, D1 := e.domain(n0, vv[0]), e.domain(N, vv[1])
 			if !D0.ok || !D1.ok {
 				continue
 			}
